@@ -63,6 +63,14 @@ PROPS['C12'] = {'module': 'text',
     'technique': 'TLC exhaustive model check of both dtype grammars against the renderers for n_word<=WD, -8<=n_frac<=n_word+8, complex, all spellings and cases + replay on the real code (Fxp(dtype=), resize(dtype=), get_dtype under both defaults, fxp_sum(dtype=)/get_sizes_from_dtype) + TLC trace validation up to 256 bits',
     'level_text': 'TLC generates every spelling (fxp with/without -complex, upper/lower case, Q/UQ and S/U) of every small format and checks the transcribed _parseformatstr maps it back; on the real code TLC compares x.dtype and get_dtype(notation) under both configured defaults with the specified string, and the format obtained from Fxp(dtype=s), resize(dtype=s), Fxp(dtype=x.dtype) and get_sizes_from_dtype(s) with the original; n_word up to 256 is sampled through the render-and-feed-back route.',
     'level_note': _TX_NOTE}
+PROPS['C13'] = {'module': 'bits',
+    'technique': 'TLC exhaustive model check (transcribed invert/and/or/xor = pointwise operation on the n_word-bit patterns, masks incl. negative/oversized, ~~x=x, ~x=-x-LSB, De Morgan) over all code pairs + replay on the real code + TLC trace validation at 16..128 bits over BigInt bit patterns',
+    'level_text': 'For every pair of same-word formats with n_word<=W (every signedness combination, n_frac 0..n_word) and every code pair TLC checks the transcribed operators against pointwise NOT/AND/OR/XOR of the two-complement bit sequences and the derived laws; every pair is executed on the real code (array x with scalar Fxp y, scalar with scalar, integer masks on either side incl. negative and oversized ones, rejection of different word lengths) and TLC compares result format and bit pattern; n_word in {16,31,32,33,63,64,65,100,128} is sampled at boundary/random codes.',
+    'level_note': _AR_NOTE}
+PROPS['C14'] = {'module': 'bits',
+    'technique': 'TLC exhaustive model check of the transcribed shift algorithms (min_pow2-driven fraction growth, magnitude-driven word growth, arithmetic right shift, clamp-or-wrap left shift) for all codes, counts 0..n_word+3 and 2-element arrays + replay on the real code + TLC trace validation to 32 bits',
+    'level_text': 'For all codes of all formats with n_word<=W, n_frac in {0, n_word/2}, counts 0..n_word+3 and arrays of up to two codes TLC checks that expand mode is lossless (value scaled by exactly 2^+-n) and that trunc/keep mode keeps the format, shifts right arithmetically and shifts left exactly when representable, else clamps or wraps; every case is executed on the real code (scalars, arrays, 3 modes, both overflow settings) and judged by TLC incl. operand untouched; n_word<=32 with n_word+n<=62 is sampled.',
+    'level_note': _AR_NOTE}
 
 NOT_APPLICABLE = {}
 
@@ -116,9 +124,13 @@ def default_account(chk, obs):
                     if fo[i] or fu[i] or fi[i]:
                         v = row['v'][i]
                         seen.add((row.get('s'), row.get('w'), row.get('f'), row.get('r'), row.get('o'), tuple(v['m']), v['e']))
-        elif k in ('arith', 'div', 'arithc', 'unary', 'conv'):
+        elif k in ('arith', 'div', 'arithc', 'unary', 'conv', 'bitwise', 'shift'):
             cx = row.get('cx', row.get('cs', []))
             cy = row.get('cy', cx)
+            if k == 'bitwise':
+                cy = [cy] * len(cx)
+            elif k == 'shift':
+                cy = cx
             ev += len(cx)
             ex, ey = _ext(row['x']), _ext(row.get('y', row['x']))
             key = (k, row.get('op'), row['x']['s'], row['x']['w'], row['x']['f'], row.get('y', {}).get('s'), row.get('y', {}).get('w'), row.get('y', {}).get('f'))
